@@ -1,6 +1,7 @@
 package main
 
 import (
+	"go/constant"
 	"go/token"
 
 	"golang.org/x/tools/go/ssa"
@@ -377,5 +378,234 @@ func ruleGroupEntries(r *Run) {
 		os.Fail(r.pos(fn.Pos()), "no success return found")
 	} else if sgood {
 		os.OK("%d success return(s) dominated by the per-stream sort (cmp.Compare(a.T, b.T))", nSucc).At(r.pos(sortCall.Pos()))
+	}
+}
+
+// ruleLabelSetString: the stream key is order-independent and injective.
+func ruleLabelSetString(r *Run) {
+	p := r.P
+	fn := p.Method(enginePkg, "LabelSet", "String")
+	ruleInjectiveEncoder(r, fn, "logqlengine.(*LabelSet).String", "strings", "Builder", true)
+	o := r.Ob("MO-SORT", "logqlengine.(*LabelSet).String order", "the key lists labels in sorted name order: the keys are sorted before the loop that writes them, and every label is written")
+	if fn == nil {
+		o.Fail("-", "method not found")
+		return
+	}
+	var keys *ssa.Call
+	for _, c := range callsIn(fn) {
+		if call, ok := c.(*ssa.Call); ok && isMapsKeysValues(call) {
+			keys = call
+		}
+	}
+	var loop *rangeLoop
+	for _, l := range rangeIndexLoops(fn) {
+		if keys != nil && l.X == ssa.Value(keys) {
+			loop = l
+		}
+	}
+	if keys == nil || loop == nil {
+		o.Fail(r.pos(fn.Pos()), "maps.Keys call=%v, range over it=%v", keys != nil, loop != nil)
+		return
+	}
+	if f, base, ok := loadOfField(keys.Call.Args[0]); !ok || f != "labels" || base != ssa.Value(fn.Params[0]) {
+		o.Fail(r.pos(keys.Pos()), "keys are taken from %s, not l.labels", describe(keys.Call.Args[0], 0))
+		return
+	}
+	sorted := false
+	for _, c := range callsIn(fn) {
+		if call, ok := c.(*ssa.Call); ok && isSortCall(call) && call.Call.Args[0] == ssa.Value(keys) && instrDominates(call, loop.Len) {
+			pkg, name := calleePkgName(call)
+			if (pkg == "slices" || pkg == "golang.org/x/exp/slices") && name == "Sort" || pkg == "sort" && name == "Strings" {
+				sorted = true
+			}
+		}
+	}
+	if !sorted {
+		o.Fail(r.pos(loop.Len.Pos()), "the keys are not sorted (ascending) before they are written: equal label sets would produce different stream keys")
+		return
+	}
+	if len(loop.earlyExits()) > 0 {
+		o.Fail(r.pos(fn.Pos()), "the key loop can be left early: label sets that differ only in later labels would share a key")
+		return
+	}
+	// value looked up by the ranged key
+	o.OK("maps.Keys(l.labels) -> slices.Sort -> one name=quoted value per key").At(r.pos(fn.Pos()))
+	// AsMap returns a fresh map
+	am := p.Method(enginePkg, "LabelSet", "AsMap")
+	of := r.Ob("PV-FRESH", "logqlengine.(*LabelSet).AsMap", "the label map handed to a stream is freshly built: it never aliases the per-record label set the iterator reuses")
+	if am == nil {
+		of.Fail("-", "method not found")
+		return
+	}
+	good := true
+	for _, ret := range returnsOf(am) {
+		if _, ok := ret.Results[0].(*ssa.MakeMap); !ok {
+			good = false
+			of.Fail(r.pos(ret.Pos()), "AsMap returns %s, not a map made in this call", describe(ret.Results[0], 0))
+		}
+	}
+	al := p.Method(enginePkg, "LabelSet", "AsLokiAPI")
+	if al != nil {
+		for _, ret := range returnsOf(al) {
+			c, ok := stripConv(ret.Results[0]).(*ssa.Call)
+			if !ok || !callIs(c, modPath+"/"+enginePkg, "(*LabelSet).AsMap") {
+				good = false
+				of.Fail(r.pos(ret.Pos()), "AsLokiAPI returns %s, not a conversion of AsMap()", describe(ret.Results[0], 0))
+			}
+		}
+	}
+	if good {
+		of.OK("AsMap makes a new map; AsLokiAPI converts it").At(r.pos(am.Pos()))
+	}
+}
+
+// ruleLimit: the entry limit.
+func ruleLimit(r *Run) {
+	p := r.P
+	fn := p.Method(enginePkg, "entryIterator", "Next")
+	o := r.Ob("FE-ORD", "logqlengine.(*entryIterator).Next limit", "iteration stops because of the limit iff limit > 0 and the number of emitted entries has reached it; a non-positive limit never stops it; the counter grows by one per emitted entry")
+	if fn == nil {
+		o.Fail("-", "method not found")
+		return
+	}
+	// atoms: loads of i.limit and i.entries in comparisons
+	var limitLoads, entriesLoads []ssa.Value
+	var nextCall *ssa.Call
+	allInstrs(fn, func(in ssa.Instruction) {
+		switch x := in.(type) {
+		case *ssa.UnOp:
+			if f, base, ok := loadOfField(x); ok && base == ssa.Value(fn.Params[0]) {
+				if f == "limit" {
+					limitLoads = append(limitLoads, x)
+				}
+				if f == "entries" {
+					entriesLoads = append(entriesLoads, x)
+				}
+			}
+		case *ssa.Call:
+			if invokeIs(x, "Next") {
+				nextCall = x
+			}
+		}
+	})
+	if len(limitLoads) == 0 || len(entriesLoads) == 0 || nextCall == nil {
+		o.Fail(r.pos(fn.Pos()), "limit/entries tests or the source Next call not found (limit loads=%d entries loads=%d)", len(limitLoads), len(entriesLoads))
+		return
+	}
+	bad := false
+	for _, c := range []struct {
+		limit, entries int64
+		stop           bool
+	}{{-1, 0, false}, {-1, 5, false}, {0, 0, false}, {0, 7, false}, {3, 2, false}, {3, 3, true}, {3, 4, true}, {1, 0, false}, {1, 1, true}} {
+		assume := map[ssa.Value]constant.Value{nextCall: constant.MakeBool(true)}
+		for _, l := range limitLoads {
+			assume[l] = constant.MakeInt64(c.limit)
+		}
+		for _, e := range entriesLoads {
+			assume[e] = constant.MakeInt64(c.entries)
+		}
+		w := &feWalker{Fn: fn, Assume: assume, MaxPath: 2000}
+		stopped := true
+		for _, e := range w.Run() {
+			// the path "stops because of the limit" if it returns false without having processed the record
+			processed := false
+			for _, cc := range e.State.calls {
+				if callIs(cc.Call, modPath+"/"+enginePkg, "(*LabelSet).SetFromRecord") {
+					processed = true
+				}
+			}
+			if processed {
+				stopped = false
+			}
+		}
+		if stopped != c.stop {
+			bad = true
+			o.Fail(r.pos(fn.Pos()), "limit=%d entries=%d: iteration %s, expected it to %s", c.limit, c.entries, map[bool]string{true: "stops", false: "continues"}[stopped], map[bool]string{true: "stop", false: "continue"}[c.stop])
+		}
+	}
+	// entries++ exactly once, dominating `return true`
+	var incs []*ssa.Store
+	allInstrs(fn, func(in ssa.Instruction) {
+		if st, ok := in.(*ssa.Store); ok {
+			if n, base, ok := fieldNameOf(st.Addr); ok && n == "entries" && base == ssa.Value(fn.Params[0]) {
+				incs = append(incs, st)
+			}
+		}
+	})
+	if len(incs) != 1 {
+		bad = true
+		o.Fail(r.pos(fn.Pos()), "the entry counter is written at %d places, expected one increment", len(incs))
+	} else {
+		b, ok := incs[0].Val.(*ssa.BinOp)
+		one := false
+		if ok && b.Op == tokADD() {
+			if c, ok := constInt(b.Y); ok && c == 1 {
+				one = true
+			}
+		}
+		if !one {
+			bad = true
+			o.Fail(r.pos(incs[0].Pos()), "the entry counter is not incremented by one (%s)", describe(incs[0].Val, 0))
+		}
+		for _, ret := range returnsOf(fn) {
+			for _, lv := range phiLeaves(ret.Results[0]) {
+				if isConstBool(lv, true) && !instrDominates(incs[0], ret) {
+					bad = true
+					o.Fail(r.pos(ret.Pos()), "an entry is emitted without counting it")
+				}
+				if isConstBool(lv, false) && incs[0].Block().Dominates(ret.Block()) {
+					bad = true
+					o.Fail(r.pos(ret.Pos()), "the counter is incremented on a path that emits nothing")
+				}
+			}
+		}
+	}
+	if !bad {
+		o.OK("stop iff limit > 0 && entries >= limit; entries++ once per emitted entry").At(r.pos(fn.Pos()))
+	}
+	// the limit reaches the iterator: evalLogExpr passes params.Limit, selectLogs stores params.Limit
+	ol := r.Ob("PV-ROLE", "logqlengine limit plumbing", "the query's limit is the iterator's limit")
+	sl := p.Method(enginePkg, "Engine", "selectLogs")
+	el := p.Method(enginePkg, "Engine", "evalLogExpr")
+	if sl == nil || el == nil {
+		ol.Fail("-", "selectLogs/evalLogExpr not found")
+		return
+	}
+	lbad := false
+	found := false
+	for _, ret := range returnsOf(sl) {
+		for _, lv := range phiLeaves(ret.Results[0]) {
+			if al, ok := stripTypeOnly(lv).(*ssa.Alloc); ok {
+				fs := allocFieldStores(al)
+				found = true
+				if f, _, ok := loadOfField(fs["limit"]); !ok || f != "Limit" {
+					lbad = true
+					ol.Fail(r.pos(ret.Pos()), "the iterator's limit is %s, not params.Limit", describe(fs["limit"], 0))
+				}
+				if c, ok := constInt(fs["entries"]); fs["entries"] != nil && (!ok || c != 0) {
+					lbad = true
+					ol.Fail(r.pos(ret.Pos()), "the iterator's entry counter does not start at zero")
+				}
+			}
+		}
+	}
+	for _, c := range callsIn(el) {
+		if callIs(c, modPath+"/"+enginePkg, "(*Engine).selectLogs") {
+			fs, ok := structLitStores(c.Common().Args[len(c.Common().Args)-1])
+			if !ok {
+				continue
+			}
+			if f, _, ok := loadOfField(fs["Limit"]); !ok || f != "Limit" {
+				lbad = true
+				ol.Fail(r.pos(c.Pos()), "evalLogExpr passes Limit = %s", describe(fs["Limit"], 0))
+			}
+		}
+	}
+	if !found {
+		lbad = true
+		ol.Fail(r.pos(sl.Pos()), "selectLogs does not return an entryIterator literal")
+	}
+	if !lbad {
+		ol.OK("EvalParams.Limit -> selectLogsParams.Limit -> entryIterator.limit").At(r.pos(sl.Pos()))
 	}
 }
